@@ -137,4 +137,5 @@ func c13(c *core.Ctx, r *core.Report) {
 	r.Floor("R13.check", 5, "addNext, manageEscapeContexts, checkEscape, init, Visit")
 	exitRule(c, r, "R13.fail", "Escapes")
 	c13resolve(c, r)
+	c15matchesAs(c, r, "R13.converge")
 }
